@@ -115,6 +115,8 @@ def run(ctx: Ctx):
     incs = [n for n in own_nodes(rw.node) if isinstance(n, ast.AugAssign) and isinstance(n.op, ast.Add) and len(rnames) == 3 and u(n.target) == rnames[1]]
     vals2 = sorted(u(n.value) for n in incs)
     okinc = len(incs) == 2 and vals2[0] == "1" and vals2[1].startswith("~")
+    from .search_common import finished_mass_on_eos
+    finished_mass_on_eos(ctx, rw, "S1")
     col.ob("G16", "S1", f"{rel}::RandomWalk.forward::length-counts-up-to-first-eos", okinc,
            f"lengths are advanced by {vals2}; expected += 1 without eos and += ~(finished before this step) with eos (the "
            f"first eos is counted, later ones are not)", rel, rw.line, sample=vals2)
@@ -446,6 +448,7 @@ def _log_prob_input_contract(ctx: Ctx, dist, lp, rel: str):
 def _mutants():
     from selftest.mutate import Mutant as M
     _extra = [
+        M("finished-walk-cleared-by-another-mask", "_decoding.py", "log_probs_t = log_probs_t.masked_fill(eos_mask.unsqueeze(1), -float('inf'))", "log_probs_t = log_probs_t.masked_fill((y_lens < 0).unsqueeze(1), -float('inf'))", "finished-path-cleared-under-its-own-mask"),
         M("value-not-broadcast", "_decoding.py", "value = value.expand(broadcast_shapes(value.shape[:-1], self.batch_shape) + value.shape[-1:])", "value = value", "value-broadcast-against-batch-shape"),
         M("history-fed-raw", "_decoding.py", "value = fill_after_eos(value, self.random_walk.eos, -1)", "value = value", "history-normalised-after-eos"),
         M("empty-result-by-quotient", "_decoding.py", "if value.numel() == 0:\n            return torch.zeros(shape, device=value.device)", "if value.numel() // max(batch_size * value.size(-1), 1) == 0:\n            return torch.empty(shape, device=value.device)", "no-uninitialised-result"),
